@@ -12,7 +12,13 @@ RULE = ('Complete enumeration of a finite structure: every fact (index set, '
         'closure, defaults incl. docstring defaults, property order/types/'
         'flag bits, behavioural index check) of all 64 classes and '
         'Basic.Properties is compared with the transcribed spec table. A case '
-        'is one (class, fact); non-trivial = every fact (no default case).')
+        'is one (class, fact); non-trivial = every fact (no default case).'
+        ' '
+        'Also: the catalogue is re-read on a fresh import after '
+        'applications defined subclasses (plain, with constructor '
+        'arguments, with __slots__ of their own, a vendor method), '
+        'unknown ids were decoded, and all 64 methods were decoded '
+        'under warnings-as-errors and under debug logging.')
 BOUNDS = {'quick': {'facts': 'all'}, 'thorough': {'facts': 'all'}}
 ASSUMPTIONS = ['mc/spec_table.py is a faithful transcription of AMQP 0-9-1 + '
                'RabbitMQ extensions and of the library\'s documented naming '
